@@ -4984,7 +4984,35 @@ fn time_zones(h: &Hier, q: &Query, msg: &[Served]) -> BTreeSet<usize> {
 }
 
 /// Oracle for one executed history; the times come from the schedule the harness chose itself.
+/// The validator reads the real clock (plus the harness's shift). A history that crosses a
+/// second boundary of the real clock at an unlucky moment can differ from the schedule the oracle
+/// assumes by one second; on a heavily loaded machine this happened once (benign change C14-1).
+/// Following "replay a recorded schedule twice before trusting a failure", a history that shows a
+/// violation is executed again on a fresh context and only the classes that show again are
+/// reported; a genuine defect is deterministic and shows both times.
 fn judge_time_history(ctx: &Ctx, stats: &Stats, tc: &Arc<TimeCtx>, hist: &THist, verbose: bool) {
+    let mut first = Vec::new();
+    judge_time_history_once(stats, tc, hist, verbose, &mut first);
+    if first.is_empty() {
+        return;
+    }
+    let scratch = Stats::new();
+    let mut second = Vec::new();
+    judge_time_history_once(&scratch, tc, hist, false, &mut second);
+    for (sig, what, j) in first {
+        if second.iter().any(|x| x.0 == sig) {
+            ctx.violation(&sig, &what, j);
+        } else {
+            stats.count("time|violation-not-reproduced-when-the-history-was-executed-again");
+        }
+    }
+}
+
+fn tviol(out: &mut Vec<(String, String, Value)>, sig: &str, what: &str, j: Value) {
+    out.push((sig.to_string(), what.to_string(), j));
+}
+
+fn judge_time_history_once(stats: &Stats, tc: &Arc<TimeCtx>, hist: &THist, verbose: bool, out: &mut Vec<(String, String, Value)>) {
     let (obs, log) = run_time_history(tc, hist);
     let h = &tc.h;
     let maxv = if hist.cfg == 1 { TIME_MAXV_SHORT } else { TIME_MAXV_DEFAULT };
@@ -5069,15 +5097,15 @@ fn judge_time_history(ctx: &Ctx, stats: &Stats, tc: &Arc<TimeCtx>, hist: &THist,
                 .join(" -> ")
         };
         if let Verdict::Panic(p) = &o.verdict {
-            ctx.violation(&format!("C14|validator|panic|{}", panic_sig(p)), &format!("validator panicked ({p}) in step {i} of a history in which time passes on one context: {} (scenario {})", hist_text(), h.name), thist_json(tc, hist, i));
+            tviol(out, &format!("C14|validator|panic|{}", panic_sig(p)), &format!("validator panicked ({p}) in step {i} of a history in which time passes on one context: {} (scenario {})", hist_text(), h.name), thist_json(tc, hist, i));
             return;
         }
         if o.over {
-            ctx.violation("C14|validator|time-passes|upstream-budget-exceeded", &format!("more than {BUDGET} upstream queries for one validation in a history in which time passes: {} (scenario {})", hist_text(), h.name), thist_json(tc, hist, i));
+            tviol(out, "C14|validator|time-passes|upstream-budget-exceeded", &format!("more than {BUDGET} upstream queries for one validation in a history in which time passes: {} (scenario {})", hist_text(), h.name), thist_json(tc, hist, i));
         }
         if o.verdict.secure() {
             if expected != vec!["Secure"] {
-                ctx.violation(
+                tviol(out, 
                     "C14|validator|time-passes|secure-below-insecure-delegation",
                     &format!("Secure reported for {} {} which lies in a zone without a secure delegation: {} (scenario {})", show(&q.name), tname(q.qtype), hist_text(), h.name),
                     thist_json(tc, hist, i),
@@ -5088,7 +5116,7 @@ fn judge_time_history(ctx: &Ctx, stats: &Stats, tc: &Arc<TimeCtx>, hist: &THist,
                 let rel = if b.0.zone == qz { "answer-zone" } else { "other-zone-of-the-chain" };
                 let kind = link_name(h, b.0);
                 let kind = kind.split('@').next().unwrap_or("");
-                ctx.violation(
+                tviol(out, 
                     &format!("C14|validator|time-passes|secure-although-{}|link={kind}-of-{rel}|in={}|upstream={mode}", b.2, b.1),
                     &format!(
                         "one ValidationContext, time passes: {} (scenario {}, schedule {}, config {}); the last step is reported Secure although at that time {} ({}): {}",
@@ -5112,7 +5140,7 @@ fn judge_time_history(ctx: &Ctx, stats: &Stats, tc: &Arc<TimeCtx>, hist: &THist,
                     Sched::Expire(_) => "expire",
                     Sched::Incept(_) => "incept",
                 };
-                ctx.violation(
+                tviol(out, 
                     &format!("C14|validator|time-passes|all-links-valid-and-served-but-reported-{}|schedule={sk}|upstream={mode}|step={i}", o.verdict.short()),
                     &format!(
                         "one ValidationContext, time passes: {} (scenario {}, schedule {}, config {}); in the last step every RRSIG the upstream serves is valid and no Bogus node can be left over (max_bogus_validity), but the authentic answer is reported {:?}, expected {expected:?}",
